@@ -224,6 +224,7 @@ def _one_run(prop, seed, index, cfg, t0):
         spec["run_index"] = index
         spec["sched_seed"] = rng.getrandbits(48)
         spec["engine"] = ENGINE_VERSION
+        spec_digest = digest(spec_core(spec))  # before evaluate() resolves positions that depend on measured counts
         viols, result, info = evaluate(spec)
         summ = mod.summarise(spec, result, info)
         summ.update(
@@ -234,7 +235,7 @@ def _one_run(prop, seed, index, cfg, t0):
                 "ok": not viols,
                 "violations": viols,
                 "wall": time.time() - t0,
-                "digest": run_digest(spec, result, viols),
+                "digest": run_digest(spec, result, viols, spec_digest),
             }
         )
         if viols:
@@ -265,7 +266,7 @@ def finalise_spec(spec, result):
     return s
 
 
-def run_digest(spec, result, viols=()):
+def run_digest(spec, result, viols=(), spec_digest=None):
     """Digest of the complete event log of a run (determinism self-test)."""
     acts = []
     for rs in result["actors"]:
@@ -277,23 +278,28 @@ def run_digest(spec, result, viols=()):
                     r.get("fresh", {}).get("d") if r.get("fresh") else None,
                     r.get("tokhash"),
                     r.get("ntok"),
-                    r.get("nline"),
                     r.get("fault_fired"),
                 )
                 for r in rs
             ]
         )
-    return digest(
-        {
-            "spec": digest(spec_core(spec)),
-            "schedule": result["schedule"],
-            "acts": acts,
-            "steps": result["steps"],
-            "switches": result["switches"],
-            "leaks": result["leaks"],
-            "verdict": sorted({v["kind"] for v in viols}),
-        }
-    )
+    d = {
+        "spec": spec_digest or digest(spec_core(spec)),
+        "acts": acts,
+        "leaks": result["leaks"],
+        "verdict": sorted({v["kind"] for v in viols}),
+    }
+    # Line-event *counts* are left out, and so are the step-level schedule data of
+    # line-mode runs: CPython's tracing emits one `line` event more or less for a few
+    # constructs (seen: a conditional expression whose taken branch is a property
+    # call) depending on how warm the code object is, i.e. on whether the run
+    # executes in a long-lived worker or in a freshly forked child.  What is
+    # computed - outcomes, token logs, leaks, verdict - must still be identical.
+    if spec.get("mode") != "line":
+        d["schedule"] = result["schedule"]
+        d["steps"] = result["steps"]
+        d["switches"] = result["switches"]
+    return digest(d)
 
 
 def spec_core(spec):
